@@ -1685,6 +1685,12 @@ class Context:
                 if is_superrun:
                     # In case the checking about allow_superrun shows error
                     p.allow_superrun = True
+                # Register the temporary plugin in a private copy of this context: the context
+                # itself may be shared by concurrent calls (e.g. the workers of multi_run).
+                # noinspection PyMethodFirstArgAssignment
+                shared_cache = self._fixed_plugin_cache
+                self = self.new_context(processors=self.processors)
+                self._fixed_plugin_cache = shared_cache
                 self.register(p)
                 targets = (temp_name,)
             elif not allow_multiple or processor is strax.SingleThreadProcessor:
